@@ -129,3 +129,48 @@ func (p *Prog) AllFieldStores(field *types.Var) []*ssa.Store {
 	}
 	return out
 }
+
+// SpilledParam returns the parameter whose value the heap cell `a` holds if `a` is the
+// entry spill of a captured parameter that is never reassigned (neither in the function nor
+// in its literals); nil otherwise.
+func SpilledParam(a *ssa.Alloc) *ssa.Parameter {
+	var prm *ssa.Parameter
+	for _, r := range *a.Referrers() {
+		st, ok := r.(*ssa.Store)
+		if !ok || st.Addr != ssa.Value(a) {
+			continue
+		}
+		p, isP := st.Val.(*ssa.Parameter)
+		if !isP || prm != nil {
+			return nil
+		}
+		prm = p
+	}
+	if prm == nil {
+		return nil
+	}
+	// reassignment inside a literal shows up as a store to the corresponding free variable
+	var lits func(f *ssa.Function) bool
+	lits = func(f *ssa.Function) bool {
+		for _, l := range f.AnonFuncs {
+			for _, fv := range l.FreeVars {
+				if fv.Name() != prm.Name() {
+					continue
+				}
+				for _, r := range *fv.Referrers() {
+					if st, ok := r.(*ssa.Store); ok && st.Addr == ssa.Value(fv) {
+						return false
+					}
+				}
+			}
+			if !lits(l) {
+				return false
+			}
+		}
+		return true
+	}
+	if !lits(a.Parent()) {
+		return nil
+	}
+	return prm
+}
